@@ -640,6 +640,238 @@ def rule_r3_merge(F, rep):
     rep.floor(R, nrows, 3, "merge states")
 
 
+def _copy_src(body, op):
+    """resolve an operand through single-assignment copies to a (local, projection) place, or None"""
+    for _ in range(5):
+        if op["k"] not in ("copy", "move"):
+            return None
+        if op["p"]:
+            return op
+        ds = [st["rv"] for bb, si, st in body.assigns() if st["p"]["l"] == op["l"] and not st["p"]["p"]]
+        if len(ds) != 1 or ds[0]["k"] != "use":
+            return op
+        nx = ds[0]["x"]
+        if nx["k"] in ("copy", "move") and nx["p"] and not any(p != "*" and p["k"] == "d" for p in nx["p"]) and nx["p"] != ["*"]:
+            return op           # e.g. the `.0` of a checked-arithmetic pair: this local is the variable
+        op = nx
+    return op
+
+
+def _add_assign(w, env, args):
+    tgt = args[0][1] if isinstance(args[0], tuple) and args[0][0] == "ref" else None
+    v = args[1]
+    if isinstance(v, tuple) and v[0] == "ref":
+        v = env.get(v[1])
+    if tgt is not None:
+        cur = env.get(tgt)
+        if isinstance(cur, int) and isinstance(v, int):
+            env[tgt] = cur + v
+        else:
+            env.kill(tgt)
+    return None
+
+
+_ADD_ASSIGN = {"<usize as core::ops::arith::AddAssign>::add_assign": _add_assign}
+
+
+def rule_r8(F, rep):
+    from . import scanfsm
+    R = rep.rule("C07.R8", "a removal marker `Removed(depth)` found at layer i hides exactly the layers i+1 ..= i+depth, for every "
+                 "reader: the single-name walks (find_field, has_visible_field) continue at layer i+depth+1, and in the field-list "
+                 "merge of get_fields_order a layer is taken into account for a name whose marker was recorded at (i, depth) exactly "
+                 "from layer i+depth+1 on — checked by evaluating the index arithmetic of each writer/reader pair on concrete "
+                 "layer numbers (the operations are additions and comparisons only). An off-by-one in one of the sites makes "
+                 "manifestation, objectHas and field access disagree after std.objectRemoveKey")
+    I, D = 10, 3
+    n = 0
+    # ---- part 1: the two single-name walks -------------------------------------------------------------------------
+    for fname in ("find_field", "has_visible_field"):
+        fn = F.fn("<%s>::%s" % (OBJ, fname))
+        rep.fn(fn)
+        body = fn.body
+        get_sites = [bb for bb, t in body.calls() if (callee_name(t) or "").endswith("HashMap>::get")]
+        # the layer variable: the integer that the marker's depth is added to (`l += depth` or `l = l + depth`)
+        L = None
+
+        def from_marker(op):
+            sb = _copy_src(body, op)
+            if sb is None:
+                return False
+            if any(p != "*" and p["k"] == "d" and p["v"] == "Removed" for p in sb["p"]):
+                return True
+            if not sb["p"]:
+                for bb2, si2, st2 in body.assigns():
+                    if st2["p"]["l"] == sb["l"] and not st2["p"]["p"] and st2["rv"]["k"] == "ref":
+                        if any(p != "*" and p["k"] == "d" and p["v"] == "Removed" for p in st2["rv"]["p"]["p"]):
+                            return True
+            return False
+        for bb, si, st in body.assigns():
+            rv = st["rv"]
+            if rv["k"] == "binop" and rv["op"].startswith("Add"):
+                for a, b in ((rv["a"], rv["b"]), (rv["b"], rv["a"])):
+                    if from_marker(b):
+                        sa = _copy_src(body, a)
+                        if sa is not None and not sa["p"]:
+                            L = sa["l"]
+        for bb, t in body.calls():
+            if (callee_name(t) or "").endswith("AddAssign>::add_assign") and len(t["xs"]) == 2 and from_marker(t["xs"][1]):
+                for bb2, si2, st2 in body.assigns():
+                    if st2["p"]["l"] == t["xs"][0].get("l") and not st2["p"]["p"] and st2["rv"]["k"] == "ref" and not st2["rv"]["p"]["p"]:
+                        L = st2["rv"]["p"]["l"]
+        if L is None or not get_sites:
+            raise kwalk.WalkLimit("%s: layer variable / lookups not found" % fname)
+        for site_i, site in enumerate(get_sites):
+            res = {}
+            for fs in ("absent", "Removed"):
+                def hook(w, bb, t, env, args, fs=fs, site=site):
+                    dst = w.norm(env, t["dst"])
+                    if bb == site and not w.pre:
+                        if fs == "absent":
+                            return ("var", OPTION, "None")
+                        env["%s@Some.0" % dst] = ("ref", "FLD")
+                        env["FLD"] = ("var", FIELD, "Removed")
+                        env["FLD@Removed.0"] = D
+                        return ("var", OPTION, "Some")
+                    return None
+
+                def on_term(w, bb, t, env, site=site):
+                    if w.pre:
+                        return None
+                    if t["k"] == "call" and env.get("#past"):
+                        nm = callee_name(t) or ""
+                        if nm in ("<[T]>::get", "<alloc::vec::Vec>::get") or nm.endswith("core::ops::index::Index>::index"):
+                            v = w.val(env, t["xs"][1]) if len(t["xs"]) > 1 else None
+                            return (kwalk.STOP, ("next-index", v if isinstance(v, int) else None))
+                    if bb == site:
+                        env["#past"] = 1
+                    return None
+                w = kwalk.Walker(F, body, call_result=hook, on_term=on_term, arith=True, pure_calls=_ADD_ASSIGN)
+                outs = w.run(site, {str(L): I})
+                rep.states += w.states_explored
+                idx = {m[1] for kind, marks, _ in outs for m in marks if m[0] == "next-index"}
+                res[fs] = idx
+            n += 1
+            a, r = res["absent"], res["Removed"]
+            ok = len(a) == 1 and len(r) == 1 and None not in a and None not in r and (next(iter(r)) - next(iter(a))) == D
+            if not a and not r:
+                continue        # the lookup is not followed by another layer access on any path
+            rep.ob(R, "%s|lookup%d|skip" % (fname, site_i), ok, {"function": fname, "layer": I, "depth": D,
+                                                                 "next index without marker": sorted(map(str, a)), "next index after marker": sorted(map(str, r))})
+            if not ok:
+                rep.violation(R, "%s|lookup%d|marker-skip" % (fn.q, site_i), "%s: after a removal marker of depth %d at layer %d the "
+                              "walk continues at slice index %s, without a marker at %s; the marker must move the walk on by exactly "
+                              "its depth" % (fname, D, I, sorted(map(str, r)), sorted(map(str, a))), fn.loc)
+    # ---- part 2: the merge of get_fields_order --------------------------------------------------------------------------
+    gfo = F.fn("<%s>::get_fields_order" % OBJ)
+    cands = [gfo] + list(F.closures_of(gfo))
+    site = None
+    for c in cands:
+        for bb, t in c.body.calls():
+            nm = callee_name(t) or ""
+            if nm.endswith("OccupiedEntry>::get_mut") or nm.endswith("OccupiedEntry>::into_mut"):
+                site = (c, bb, t)
+    if site is None:
+        raise kwalk.WalkLimit("get_fields_order: no merge of an occupied entry found")
+    c, sbb, st0 = site
+    body = c.body
+    E = st0["dst"]["l"]
+    ety = body.ty(body.local_ty(E)["t"]) if body.local_ty(E)["k"] == "ref" else None
+    if not ety or ety["k"] != "adt":
+        raise kwalk.WalkLimit("get_fields_order: merge state is not an enum")
+    T = ety["d"]
+    tadt = F.adt(T)
+    cr = tadt["_crate"]
+    flocals = [l for l in range(len(body.locals)) if body.local_ty(l)["k"] == "ref"
+               and body.ty(body.local_ty(l)["t"])["k"] == "adt" and body.ty(body.local_ty(l)["t"])["d"] == FIELD]
+    vis_i = [i for i, f in enumerate(F.adt(FDATA)["variants"][0]["fields"]) if f["n"] == "visibility"][0]
+    # the layer variable: an integer local compared with an integer payload of the merge state
+    L = None
+    for bb, si, st in body.assigns():
+        rv = st["rv"]
+        if rv["k"] == "binop" and rv["op"] in ("Gt", "Ge", "Lt", "Le"):
+            for a, b in ((rv["a"], rv["b"]), (rv["b"], rv["a"])):
+                sa = _copy_src(body, a)
+                if sa is not None and not sa["p"] and body.local_ty(sa["l"])["k"] == "prim":
+                    L = sa["l"] if L is None or L == sa["l"] else L
+    if L is None or not flocals:
+        raise kwalk.WalkLimit("get_fields_order: layer variable not found")
+    slots = []      # (variant, visibility field index or None, integer field index)
+    for v in tadt["variants"]:
+        ints = [i for i, f in enumerate(v["fields"]) if cr.types[f["t"]]["k"] == "prim" and cr.types[f["t"]]["s"] == "usize"]
+        vfs = [i for i, f in enumerate(v["fields"]) if cr.types[f["t"]]["k"] == "adt" and cr.types[f["t"]]["d"] == VIS]
+        for i in ints:
+            slots.append((v["n"], vfs[0] if vfs else None, i))
+
+    def step(sv, vf, ii, V, j, incoming, ivis=None, depth=None):
+        env0 = {"%d.*" % E: ("var", T, sv), "%d.*@%s.%d" % (E, sv, ii): V, str(L): j}
+        if vf is not None:
+            env0["%d.*@%s.%d" % (E, sv, vf)] = ("var", VIS, "Default")
+        for fl in flocals:
+            env0["%d.*" % fl] = ("var", FIELD, incoming)
+            if incoming == "Normal":
+                env0["%d.*@Normal.0.%d" % (fl, vis_i)] = ("var", VIS, ivis)
+            else:
+                env0["%d.*@Removed.0" % fl] = depth
+
+        def on_term(w, bb, t, env):
+            if not w.pre and t["k"] == "call" and (callee_name(t) or "").endswith("Iterator>::next"):
+                return kwalk.STOP
+            return None
+        def on_stmt(w, bb, idx, s_, env):
+            # the entry's final state is read when its borrow goes out of scope (before the storage is released)
+            if not w.pre and s_["k"] == "dead" and s_["l"] == E:
+                stv = env.get("%d.*" % E)
+                vn = stv[2] if isinstance(stv, tuple) and stv[0] == "var" else None
+                ints = tuple(sorted((k, v) for k, v in env.items() if isinstance(v, int) and not isinstance(v, bool) and k.startswith("%d.*@%s." % (E, vn))))
+                visv = tuple(sorted((k, v[2]) for k, v in env.items() if isinstance(v, tuple) and v[0] == "var" and v[1] == VIS and k.startswith("%d.*@" % E)))
+                return ("final", vn, ints, visv)
+            return None
+        w = scanfsm._ScanWalker(F, body, on_term=on_term, on_stmt=on_stmt, arith=True)
+        outs = w.run(st0["t"], dict(env0))
+        rep.states += w.states_explored
+        res = set()
+        for kind, marks, ret in outs:
+            if kind != "stop":
+                continue
+            fin = [m for m in marks if m[0] == "final"]
+            if len(fin) != 1:
+                raise kwalk.WalkLimit("get_fields_order: the merged entry's final state was not observed")
+            res.add(fin[0][1:])
+        return res
+    for sv, vf, ii in slots:
+        before = step(sv, vf, ii, 0, I, "Removed", depth=D)            # a marker met at layer I while everything above is open
+        if len(before) != 1:
+            raise kwalk.WalkLimit("get_fields_order: marker merge in state %s is not deterministic: %s" % (sv, sorted(map(str, before))))
+        vn, ints, _ = next(iter(before))
+        slot2 = [(s2, vf2, i2) for s2, vf2, i2 in slots if s2 == vn]
+        if not ints or not slot2:
+            continue
+        s2, vf2, i2 = slot2[0]
+        W = dict(ints).get("%d.*@%s.%d" % (E, s2, i2))
+        if not isinstance(W, int):
+            raise kwalk.WalkLimit("get_fields_order: recorded marker limit is not a number in state %s" % vn)
+        base = step(s2, vf2, i2, W, I + D, "Normal", ivis="Hidden")
+        hidden_changed = base != {(s2, tuple(sorted({"%d.*@%s.%d" % (E, s2, i2): W}.items())), next(iter(base))[2])} if base else True
+        at_hidden = step(s2, vf2, i2, W, I + D, "Normal", ivis="Hidden")
+        at_open = step(s2, vf2, i2, W, I + D + 1, "Normal", ivis="Hidden")
+
+        def changed(res):
+            return any(not (v == s2 and dict(ints_).get("%d.*@%s.%d" % (E, s2, i2)) == W and all(x[1] == "Default" for x in vis_ if x[0].startswith("%d.*@" % E)))
+                       for v, ints_, vis_ in res)
+        n += 1
+        ok = (not changed(at_hidden)) and changed(at_open)
+        rep.ob(R, "get_fields_order|%s->%s" % (sv, s2), ok, {"state when the marker is met": sv, "marker": {"layer": I, "depth": D}, "recorded limit": W,
+                                                             "layer %d changes the entry" % (I + D): changed(at_hidden),
+                                                             "layer %d changes the entry" % (I + D + 1): changed(at_open)})
+        if not ok:
+            rep.violation(R, "%s|marker-range|%s" % (gfo.q, sv), "get_fields_order: a removal marker of depth %d met at layer %d in state "
+                          "%s records the limit %d; with it layer %d %s and layer %d %s — the marker must hide exactly layers %d..=%d "
+                          "(find_field / has_visible_field continue at layer %d)"
+                          % (D, I, sv, W, I + D, "is merged" if changed(at_hidden) else "is skipped", I + D + 1,
+                             "is merged" if changed(at_open) else "is skipped", I + 1, I + D, I + D + 1), c.loc)
+    rep.floor(R, n, 6, "marker writer/reader pairs")
+
+
 def rule_r5(F, rep):
     R = rep.rule("C07.R5", "a field is evaluated relative to the layer it was found in: in find_object_field_thunk the layer index "
                  "handed to init_object_env / get_object_layer_env is the one find_field returned, never the index the search "
@@ -833,6 +1065,7 @@ def run(F, rep, tier):
     rep.attempt(rule_r3_merge, F, rep)
     rep.attempt(rule_r5, F, rep)
     rep.attempt(rule_r7, F, rep)
+    rep.attempt(rule_r8, F, rep)
     from . import objflags
     rep.attempt(objflags.rule, F, rep, "C07.R2b")
     from . import visibility
